@@ -335,6 +335,50 @@ func c02Worker(c *core.Collector, x *Ctx) {
 					c.Count("bare7d_cases", 1)
 				}
 			}
+			// unescaped 0x7D bytes: a payload whose last one, two or three body bytes and whose checksum are all 0x7D, with every
+			// subset of those bytes left raw on the wire (only "checksum alone raw" is the tolerated deviation; everything else
+			// is malformed or means something else, and the reference decides)
+			if len(body) >= 4 {
+				for run := 1; run <= 3; run++ {
+					pp := append([]byte{}, p...)
+					n := len(pp)
+					for q := 0; q < run; q++ {
+						pp[n-2-q] = 0x7d
+					}
+					pp = c02Fix(pp)
+					pp[n-2-run] ^= pp[n-1] ^ 0x7d // steer the checksum to 0x7D through a body byte in front of the run
+					pp = c02Fix(pp)
+					if pp[n-1] != 0x7d {
+						continue
+					}
+					for mask := 1; mask < 1<<(run+1); mask++ {
+						// bit 0: checksum raw, bit q+1: body byte n-2-q raw
+						var e3 []byte
+						e3 = append(e3, 0x7e)
+						for i, b := range pp {
+							raw := false
+							if i == n-1 {
+								raw = mask&1 != 0
+							} else if i >= n-1-run {
+								raw = mask>>(n-1-i)&1 != 0
+							}
+							switch {
+							case b == 0x7d && raw:
+								e3 = append(e3, 0x7d)
+							case b == 0x7d:
+								e3 = append(e3, 0x7d, 0x01)
+							case b == 0x7e:
+								e3 = append(e3, 0x7d, 0x02)
+							default:
+								e3 = append(e3, b)
+							}
+						}
+						e3 = append(e3, 0x7e)
+						check(e3, "raw7d-tail", true)
+						c.Count("raw7d_tail_cases", 1)
+					}
+				}
+			}
 		}
 	})
 	// ---- (c2) phone rendering: every position of a single non-zero nibble, pairs of nibbles, all-zero, all-f
